@@ -369,6 +369,9 @@ impl AsyncWrite for WriteHalf {
         drop(p);
         ctx::with(|s| {
             s.mix(0xB17E ^ (n as u64) << 8 ^ self.conn.id << 40);
+            let id = self.conn.id;
+            let side = self.side;
+            s.note(|| format!("write conn{id}.{side} {n}B lat{lat}"));
         });
         Poll::Ready(Ok(n))
     }
